@@ -77,6 +77,11 @@ Inductive dop :=
 | DDynLen (s : dop) (offset cnt_byte cnt_bit : Z) (cnt : dop)
 | DEop (s : dop)
 | DEndMarker (s : dop) (tdop : dop) (tval : value)
+(* MUX: BYTE-POSITION of the case content, position of the switch key (both relative to the
+   multiplexer), the switch key's data object, the cases and the optional default case *)
+| DMux (bytepos key_byte key_bit : Z) (key : dop) (cases : list mcase) (dflt : option mcase)
+with mcase :=
+| MC (nm : name) (lo hi : Z) (s : option dop)   (* limits are read as closed, whatever their INTERVAL-TYPE *)
 with param :=
 | P (nm : name) (bytepos bitpos : option Z) (k : pkind)
 with pkind :=
@@ -87,6 +92,12 @@ with pkind :=
 | KMatchReq (rqpos len : Z)
 | KNrc (d : dct) (vs : list value)
 | KLenKey (d : dop).
+
+Definition mc_name (c : mcase) : name := match c with MC n _ _ _ => n end.
+Definition mc_lo (c : mcase) : Z := match c with MC _ l _ _ => l end.
+Definition mc_hi (c : mcase) : Z := match c with MC _ _ h _ => h end.
+Definition mc_struct (c : mcase) : option dop := match c with MC _ _ _ s => s end.
+Definition mc_applies (key : Z) (c : mcase) : bool := (mc_lo c <=? key) && (key <=? mc_hi c).
 
 Definition pname (p : param) : name := match p with P n _ _ _ => n end.
 Definition pkind_of (p : param) : pkind := match p with P _ _ _ k => k end.
@@ -677,6 +688,41 @@ Fixpoint enc_dop (fuel : nat) (d : dop) (v : value) (s : estate) {struct fuel} :
           Ok (set_cur s3 tmp)
       | _ => Err ERej
       end
+    | DMux bp kb kbit kd cases dflt =>
+      do _ <- guard (e_bit s =? 0) ERej;
+      let orig_origin := e_origin s in
+      let s := set_origin s (e_cur s) in
+      do sc <- match v with
+               | VList [spec; cv] => Ok (spec, cv)
+               | VDict [(k, cv)] => Ok (VStr k, cv)
+               | _ => Err ERej
+               end;
+      let '(spec, cv) := sc in
+      (* the case (its content structure) and the value of the switch key *)
+      do sel <- match spec with
+                | VStr nm =>
+                  match filter (fun c => bytes_eqb (mc_name c) nm) cases with
+                  | [] => match dflt with Some c => Ok (mc_struct c, 0) | None => Err ERej end
+                  | [c] => Ok (mc_struct c, mc_lo c)
+                  | _ => Err ERej
+                  end
+                | VInt n =>
+                  match filter (mc_applies n) cases with
+                  | [] => match dflt with Some c => Ok (mc_struct c, n) | None => Err ERej end
+                  | c :: _ => Ok (mc_struct c, n)
+                  end
+                | VNone => match dflt with Some c => Ok (mc_struct c, 0) | None => Err ERej end
+                | _ => Err ERej
+                end;
+      let '(st, key) := sel in
+      let s := set_bit (set_cur s (e_origin s + kb)) kbit in
+      do s1 <- enc_dop f kd (VInt key) s;
+      let s1 := set_bit s1 0 in
+      do s2 <- match st with
+               | Some sd => enc_dop f sd cv (set_cur s1 (e_origin s1 + bp))
+               | None => Ok s1
+               end;
+      Ok (set_origin s2 orig_origin)
     end
   end
 
@@ -880,6 +926,27 @@ Fixpoint dec_dop (fuel : nat) (d : dop) (s : dstate) {struct fuel} : res (value 
                  end) (S (S (List.length (d_msg s)))) s [];
       let '(l, s1) := r in
       Ok (VList l, dset_origin s1 orig_origin)
+    | DMux bp kb kbit kd cases dflt =>
+      let orig_origin := d_origin s in
+      let s := dset_origin s (d_cur s) in
+      let s := dset_bit (dset_cur s (d_origin s + kb)) kbit in
+      do ks <- dec_dop f kd s;
+      let '(kv, s1) := ks in
+      let s1 := dset_bit s1 0 in
+      match kv with
+      | VInt key =>
+        match (match find (mc_applies key) cases with Some c => Some c | None => dflt end) with
+        | Some c =>
+          (* since the fix commit: the cursor only moves to BYTE-POSITION if the case has content, like the encoder *)
+          do r <- match mc_struct c with
+                  | Some sd => dec_dop f sd (dset_cur s1 (d_origin s1 + bp))
+                  | None => Ok (VDict [], s1)
+                  end;
+          Ok (VList [VStr (mc_name c); fst r], dset_origin (snd r) orig_origin)
+        | None => Err EDecode
+        end
+      | _ => Err EOdx
+      end
     end
   end
 
@@ -950,6 +1017,10 @@ Fixpoint dop_size (fuel : nat) (d : dop) : nat :=
     | DStatic s _ _ | DEop s => S (dop_size f s)
     | DDynLen s _ _ _ c => S (dop_size f s + dop_size f c)
     | DEndMarker s t _ => S (dop_size f s + dop_size f t)
+    | DMux _ _ _ k cs d =>
+      let csz := fun c => match mc_struct c with Some d' => dop_size f d' | None => 1%nat end in
+      S (dop_size f k + fold_right (fun c acc => (csz c + acc)%nat) 1%nat cs
+         + match d with Some c => csz c | None => 1 end)
     end
   end.
 
